@@ -109,15 +109,36 @@ pub fn run_dataset(cell: &Cell, symprec: f64, at: AngleTolerance, setting: Setti
 
 /// One full case line: `ds <tag> ; input ; params ; truth ; output`.
 pub fn case_line(tag: &str, c: &Crystal, symprec: f64, at: AngleTolerance, setting: Setting) -> String {
+    let _ = moyo::verif::trace::take();
     let r = run_dataset(&c.cell, symprec, at, setting);
+    // tolerance-handler events recorded by the `verif` hook during this call
+    let events = moyo::verif::trace::take();
+    let mut errs: Vec<String> = vec![];
+    let mut syms: Vec<String> = vec![];
+    for e in events.iter() {
+        // "update <Err> from SymmetryTolerances { symprec: <x>, angle_tolerance: ... }"
+        let parts: Vec<&str> = e.split_whitespace().collect();
+        if parts.len() >= 2 && parts[0] == "update" {
+            errs.push(parts[1].to_string());
+            if let Some(i) = e.find("symprec: ") {
+                let rest = &e[i + 9..];
+                let num: String = rest.chars().take_while(|c| *c != ',' && *c != ' ').collect();
+                if let Ok(x) = num.parse::<f64>() {
+                    syms.push(fx(x));
+                }
+            }
+        }
+    }
     format!(
-        "ds {} ; {} ; symprec {} ; angtol {} ; setting {} ; {} ; {}",
+        "ds {} ; {} ; symprec {} ; angtol {} ; setting {} ; {} ; terrs {} ; tsyms {} ; {}",
         tag,
         cell_segments("", &c.cell),
         fx(symprec),
         angtol_str(at),
         setting_str(setting),
         truth_segments(&c.truth),
+        if errs.is_empty() { "none".to_string() } else { errs.join(" ") },
+        if syms.is_empty() { "none".to_string() } else { syms.join(" ") },
         dataset_segments(&r)
     )
 }
@@ -272,6 +293,25 @@ pub fn gen_cases(mode: &str, tier: &str, seed: u64, out: &str) {
                         emit(&mut w, format!("h{}-req-bad{}", h, bad), &base, sp, AngleTolerance::Default, Setting::HallNumber(bad));
                     }
                 }
+            }
+        }
+        // inputs on which the first attempt fails, so that the tolerance handler has to adjust (C09 / S12):
+        // noise of the order of symprec, pairs of atoms closer than symprec, oversized symprec
+        "adjust" => {
+            let n = if thorough { 1500 } else { 260 };
+            for k in 0..n {
+                let h = rng.range(1, 530) as i32;
+                let base = crystal(h, &mut rng, 2);
+                let sp = *rng.pick(&[1e-5, 1e-4, 1e-3]);
+                let at = if rng.chance(0.6) { AngleTolerance::Default } else { AngleTolerance::Radian(rng.uniform(2e-3, 2e-2)) };
+                let lvl = rng.range(0, 1) as u32;
+                let sup = if rng.chance(0.4) && base.cell.num_atoms() <= 48 { Some(*rng.pick(&hnfs_of_index(2))) } else { None };
+                let c = redescribe(&base, &mut rng, lvl, sup);
+                let amp = *rng.pick(&[0.3, 0.6, 0.9, 1.2, 2.0, 4.0]);
+                let mut nz = c.noise(&mut rng, amp * sp);
+                nz.truth.steps.push("bignoise".into());
+                let spx = if rng.chance(0.15) { sp * 3000.0 } else { sp };
+                emit(&mut w, format!("h{}k{}-adj", h, k), &nz, spx, at, settings[k % 2]);
             }
         }
         // metamorphic pairs (C04): a base description and a random word of re-descriptions of the same crystal
